@@ -408,6 +408,51 @@ theorem colOf_getD (S : List (List Int)) (j i : Nat) : (colOf (α := α) S j).ge
 theorem colOf_length (S : List (List Int)) (j : Nat) : (colOf (α := α) S j).length = (S.getD j []).length := by
   simp [colOf]
 
+/-- **the reaction chosen by `sample_discrete` can fire without making a count negative**: whenever each weight is
+non-negative and a non-zero weight of reaction `j` means every reactant of `j` is present in its multiplicity (the
+property of mass-action propensities, in the plain and in the volume form), applying the chosen reaction's immediate and
+delayed columns to a vector of natural numbers gives a vector of natural numbers. -/
+theorem fire_natVec (m : SimModel α) (ks : List Nat) (Rs : List (List Nat)) (n : Nat) (hnet : MANet m ks Rs n)
+    (x a : List α) (q : α) (hx : IsNatVec x) (hlen : x.length = n) (hlenA : a.length = Rs.length)
+    (hfac : ∀ j (hj : j < a.length), 0 ≤ a[j] ∧
+      (a[j] ≠ 0 → ∀ i, ∃ k : Nat, vecGet x i = (k : α) ∧ (Rs.getD j []).count i ≤ k))
+    (hq0 : 0 < q) (hqle : q ≤ a.sum) :
+    IsNatVec (addCol x (addCol (colOf m.U (sampleDiscreteFrom a q).toNat) (colOf m.D (sampleDiscreteFrom a q).toNat))) ∧
+    (addCol x (addCol (colOf (α := α) m.U (sampleDiscreteFrom a q).toNat) (colOf m.D (sampleDiscreteFrom a q).toNat))).length = n := by
+  have hposA : ∀ v ∈ a, 0 ≤ v := by
+    intro v hv
+    obtain ⟨j, hj, rfl⟩ := List.mem_iff_getElem.mp hv
+    exact (hfac j hj).1
+  obtain ⟨j, hj, hsel, _, _⟩ := sampleDiscrete_interval a q hposA hq0 hqle
+  have hne : a[j] ≠ 0 := fun hz => zero_weight_not_chosen a q hposA hq0 hqle j hj hz hsel
+  have hjR : j < Rs.length := hlenA ▸ hj
+  have henough := (hfac j hj).2 hne
+  have hchoice : (sampleDiscreteFrom a q).toNat = j := by rw [hsel]; simp
+  rw [hchoice]
+  have hcU := (colOf_length (α := α) m.U j).trans (hnet.colsU j hjR)
+  have hcD := (colOf_length (α := α) m.D j).trans (hnet.colsD j hjR)
+  refine ⟨?_, addCol_length' x (colOf m.U j) (colOf m.D j) n hlen hcU hcD⟩
+  intro v hv
+  obtain ⟨i, hi, rfl⟩ := List.mem_iff_getElem.mp hv
+  have hl := addCol_length' x (colOf (α := α) m.U j) (colOf m.D j) n hlen hcU hcD
+  have hin : i < n := hl ▸ hi
+  have hval := addCol_getD x (colOf (α := α) m.U j) (colOf m.D j) n i hlen hcU hcD hin
+  rw [List.getD_eq_getElem?_getD, List.getElem?_eq_getElem hi] at hval
+  simp only [Option.getD_some] at hval
+  rw [hval, colOf_getD, colOf_getD]
+  obtain ⟨k, hk, hcount⟩ := henough i
+  have hcons := hnet.consume j hjR i hin
+  unfold vecGet at hk
+  rw [hk]
+  refine ⟨((k : Int) + (entry m.U i j + entry m.D i j)).toNat, ?_⟩
+  have hnonneg : 0 ≤ (k : Int) + (entry m.U i j + entry m.D i j) := by
+    have : ((List.count i (Rs.getD j []) : Nat) : Int) ≤ (k : Int) := by exact_mod_cast hcount
+    omega
+  have hcast : ((((k : Int) + (entry m.U i j + entry m.D i j)).toNat : Nat) : α) =
+      (((k : Int) + (entry m.U i j + entry m.D i j) : Int) : α) := by
+    rw [← Int.cast_natCast, Int.toNat_of_nonneg hnonneg]
+  rw [hcast]; push_cast; ring
+
 /-- **one step keeps the counts whole and non-negative** (plain mass-action network, uniforms in `(0, 1]`). -/
 theorem jumpStep_natState (g : Gen σ α) (m : SimModel α) (ks : List Nat) (Rs : List (List Nat)) (n : Nat)
     (times : List α) (s : LoopState σ α) (hnet : MANet m ks Rs n) (hrate : ∀ k ∈ ks, 0 ≤ vecGet s.p k)
